@@ -55,7 +55,7 @@ def _work(args):
         for o in r['obligations']:
             d = {'name': o.name, 'verdict': o.verdict, 'backend': o.backend, 'seconds': round(o.seconds, 4),
                  'note': (o.note or '')[:500]}
-            if o.verdict in ('refuted', 'unknown') and info is not None:
+            if o.verdict in ('refuted', 'unknown') and info is not None and getattr(info, 'node', None) is not None:
                 d.update(_replay(ex, c, info, o, prop, rp))
             obs.append(d)
         return {'target': target, 'status': r['status'], 'error': r['error'], 'paths': r['paths'], 'covers': r['covers'],
